@@ -215,10 +215,27 @@ def cfit_derivs(ctx):
 
 
 # ------------------------------------------------------------------ Gaussian constraints, FCN, CombineFCN
-def _vm_stub(ctx, names, trainable):
+def _vm_stub(ctx, names, trainable, bounded=()):
     """parameter values are raw scalar terms (np.array([...]) of them stays an object array, as np.array of tf scalars stays numeric)"""
     vals = {n: _el(ctx.real("par_" + n, ())) for n in names}
-    return _Dummy(trainable_vars=list(trainable), variables=vals), vals
+    return _VMStub(trainable_vars=list(trainable), variables=vals, bounded=set(bounded)), vals
+
+
+class _VMStub(_Dummy):
+    """read interface of the real VarsManager on symbolic values.  For a BOUNDED parameter the stored value y (vm.variables[name]) and the
+    fit coordinate x = y2x(y) (vm.get(name), val_in_fit=True) are different numbers; y2x is an opaque function here, so code that reads the
+    one where the statement means the other is refuted.  (Added after seeded change C07-gauss_constr_grad_fit_coordinates, which the
+    stub without `get` turned into a crash instead of a verdict.)"""
+
+    def get(self, name, val_in_fit=True):
+        if name not in self.variables:
+            raise Exception("{} not found".format(name))
+        if val_in_fit and name in self.bounded:
+            return tm.fn("uf_y2x_" + name, self.variables[name])
+        return self.variables[name]
+
+    def get_all_dic(self, trainable_only=False):
+        return {n: self.variables[n] for n in (self.trainable_vars if trainable_only else self.variables)}
 
 
 @group(["C07", "C06"], "model.GaussianConstr", ["model.model:GaussianConstr.get_constrain_term", "model.model:GaussianConstr.get_constrain_grad",
@@ -227,7 +244,8 @@ def gauss_constr(ctx):
     tf = ctx.tf
     model = ctx.mod("model.model")
     model.np = ctx.shim.NpProxy()  # np.zeros([nv, nv]) must be able to hold symbolic 1/sigma^2
-    vm, vals = _vm_stub(ctx, ["a", "b", "c", "fixed"], ["a", "b", "c"])
+    model.float = lambda x: x  # float() of a real number: identity
+    vm, vals = _vm_stub(ctx, ["a", "b", "c", "fixed"], ["a", "b", "c"], bounded=("a", "fixed"))
     mu = {n: _el(ctx.real("mu_" + n, ())) for n in ("a", "c", "fixed")}
     sgt = {n: ctx.real("sg_" + n, (), lambda r: r.uniform(0.1, 2)) for n in ("a", "c", "fixed")}
     for n in sgt:
@@ -258,7 +276,7 @@ def gauss_constr(ctx):
 def _fcn_with_constraint(ctx, model):
     """FCN whose model.* methods are summarised by uninterpreted NLL(theta) with declared partials; real GaussianConstr"""
     names = ["a", "b"]
-    vm, vals = _vm_stub(ctx, names, names)
+    vm, vals = _vm_stub(ctx, names, names, bounded=("a",))
     th = [vals[n] for n in names]
     declare_uf("NLL", 2)
     mu, sgt = _el(ctx.real("mu_a", ())), ctx.real("sg_a", (), lambda r: r.uniform(0.1, 2))
@@ -435,7 +453,7 @@ def combine_fcn(ctx):
     model.float = lambda x: x
     model.np = ctx.shim.NpProxy()
     names = ["a", "b"]
-    vm, vals = _vm_stub(ctx, names, names)
+    vm, vals = _vm_stub(ctx, names, names, bounded=("a",))
     th = [vals[n] for n in names]
     mu, sgt = _el(ctx.real("mu_b", ())), ctx.real("sg_b", (), lambda r: r.uniform(0.1, 2))
     ctx.require(sgt > 0.0)
